@@ -64,7 +64,7 @@ def project_all(out):
     """everything but the recorded batches; descriptor closes are compared as a multiset per script
     (their position depends on when the last reference on a source is dropped, which the control-flow
     model does not track; C20 looks at them separately)"""
-    main = [o for o in out if not o.startswith('BATCH') and not o.startswith('close ') and not o.startswith('free ')]
+    main = [o for o in out if not o.startswith('BATCH') and not o.startswith('close ') and not o.startswith('free ') and not o.startswith('LEAKCHECK')]
     closes = sorted(o for o in out if o.startswith('close '))
     # payload releases likewise: *when* the last reference on an event goes depends on reference counts the
     # control-flow model does not track (an event can be in a handler's queue and in the stash at once);
@@ -89,6 +89,8 @@ class Gen:
         self.pay = 0
         self.fd_dead = set()
         self.fd_owner = {}    # a descriptor can be polled once per context: each one is used by a single module
+        self.fd_dupped = set()
+        self.bursts = 0
 
     def w(self, s):
         self.lines.append(s)
@@ -100,8 +102,9 @@ class Gen:
         l = self.live(states)
         if l and self.r.random() < 0.9:
             return self.r.choice(l)
-        if self.h and self.r.random() < 0.8:
-            return self.r.choice(self.h)      # malformed stream: wrong state / zombie handle
+        usable = [x for x in self.h if not x.get('gone')]   # a handle without any reference left must never be used again
+        if usable and self.r.random() < 0.8:
+            return self.r.choice(usable)      # malformed stream: wrong state / zombie handle
         return None
 
     def body(self, d):
@@ -195,7 +198,7 @@ class Gen:
         elif a == 'tb':
             m = self.pick()
             if not m: return
-            self.w('tb %s %d %d' % (m['tok'], r.choice([0, 1, 1, 10 ** 9, 10 ** 9, 2 * 10 ** 9]), r.choice([1, 2, 3, 5])))
+            self.w('tb %s %d %d' % (m['tok'], r.choice([0, 1, 1, 10 ** 9, 10 ** 9, 2 * 10 ** 9, 65536, 131072, 65536 * 3]), r.choice([1, 2, 3, 5])))
         elif a == 'fd':
             m = self.pick()
             if not m: return
@@ -205,8 +208,12 @@ class Gen:
             k = r.choice(ok)
             if c < 0.65: self.fd_owner[k] = m['tok']
             if c < 0.45:
+                if m['state'] == 'R' and r.random() < 0.12:
+                    k = r.choice([6, 7])       # a regular file: the poll set refuses it, nothing may be left behind
                 fl = ''.join(f for f, p in (('o', .25), ('a', .15), ('h', .2), ('l', .05)) if r.random() < p) or '-'
-                if 'a' in fl: self.fd_dead.add(k)
+                if k not in self.fd_dupped and r.random() < 0.15:
+                    fl = fl.replace('-', '') + 'd'; self.fd_dupped.add(k)      # the library polls a duplicate it owns
+                if 'a' in fl and k < 6: self.fd_dead.add(k)
                 self.w('reg_fd %s f%d %s u%d' % (m['tok'], k, fl, r.randrange(1, 9)))
             elif c < 0.65:
                 self.w('dereg_fd %s f%d' % (m['tok'], k))
@@ -217,7 +224,7 @@ class Gen:
         elif a == 'tmr':
             m = self.pick()
             if not m: return
-            ns = r.choice([1, 1, 10 ** 12, 5 * 10 ** 11, 0])
+            ns = r.choice([1, 1, 10 ** 12, 5 * 10 ** 11, 0, 10 ** 12 + 2 ** 32, 10 ** 12 + 2 ** 33, 10 ** 12 + 2 ** 31 + 5, 10 ** 12 - 2 ** 32])
             if r.random() < 0.65:
                 fl = ''.join(f for f, p in (('o', .3), ('h', .2), ('l', .15)) if r.random() < p) or '-'
                 self.w('reg_tmr %s %d %s u%d' % (m['tok'], ns, fl, r.randrange(1, 9)))
@@ -259,8 +266,14 @@ class Gen:
         r = self.r
         m = self.pick()
         if not m: return
+        if not m.get('gone') and m.get('owned', True) and r.random() < 0.06:
+            # the user drops its extra reference: from now on only the registration (and in-flight messages) keep the module
+            self.w('unref %s' % m['tok']); m['owned'] = False
+            if m['state'] == 'Z': m['gone'] = True
+            return
         c = r.choice(['start', 'start', 'pause', 'resume', 'stop', 'stop', 'dereg'])
         self.w('%s %s' % (c, m['tok']))
+        if c == 'dereg' and not m.get('owned', True): m['gone'] = True
         st = m['state']
         if c == 'start' and st in 'IS':
             m['state'] = 'R'; self.maybe_hook(m, 's', d)
@@ -278,7 +291,11 @@ class Gen:
         self.pay += 1
         c = r.random()
         af = 1 if r.random() < 0.35 else 0
-        if c < 0.45:
+        if c < 0.03 and self.bursts == 0 and 'burst' in self.alpha:
+            t = self.pick('RP') or m
+            self.bursts += 1
+            self.w('burst %s %s p%d %d %d' % (m['tok'], t['tok'], 5000, af, r.choice([8190, 8193, 8300])))
+        elif c < 0.45:
             t = self.pick('RP') or m
             self.w('tell %s %s p%d %d' % (m['tok'], t['tok'], self.pay, af))
         elif c < 0.8:
@@ -306,17 +323,42 @@ class Gen:
                 self.body(d)
 
 
-def gen_script(rng, alphabet, n_ops, max_mods=4, depth=2):
+def gen_script(rng, alphabet, n_ops, max_mods=4, depth=2, teardown=0.4):
     g = Gen(rng, alphabet, max_mods, depth)
     for _ in range(n_ops):
         g.op(0)
+    if rng.random() < teardown:
+        # complete teardown, then the harness checks that nothing the library allocated or opened is left
+        # (`ret` lines close callback bodies that may be opened by the teardown itself; at top level they are ignored)
+        g.lines += ['quit 0', 'dispatch'] + ['ret 1'] * 4 + ['ctx_dereg'] + ['ret 1'] * 6 + ['leakcheck']
     return g.lines
+
+
+def wellformed_core(lines):
+    """API preconditions a script must respect (ddmin candidates violating them are not tests): a handle is not used once
+    no reference is left (user dropped its extra reference and the module was deregistered); a descriptor is handed to the
+    library for duplication at most once (the model numbers the duplicate after the descriptor)"""
+    unref, gone, dupped = set(), set(), set()
+    for i, l in enumerate(lines):
+        t = l.split()
+        if not t: continue
+        if t[0] == 'leakcheck' and i != len(lines) - 1: return False    # the check drops every reference: nothing may follow
+        toks = t[2:] if t[0] == 'foreign' else t
+        hs = [x for x in toks[1:3] if x.startswith('h') and x[1:].isdigit()]
+        if any(h in gone for h in hs): return False
+        if toks[0] == 'unref' and len(toks) == 2: unref.add(toks[1])
+        if toks[0] == 'dereg' and len(toks) == 2 and toks[1] in unref: gone.add(toks[1])
+        if toks[0] == 'unref' and len(toks) == 2 and toks[1] in gone: return False
+        if toks[0] == 'reg_fd' and len(toks) == 5 and 'd' in toks[3]:
+            if toks[2] in dupped: return False
+            dupped.add(toks[2])
+    return True
 
 
 # ---------------------------------------------------------------------------------------------------
 # trace alignment: which output lines belong to which script line (nesting included)
 
-ENV_ONLY = ('make_ready', 'drain', 'errno')
+ENV_ONLY = ('make_ready', 'drain', 'errno', 'leakcheck')
 
 
 class Rec:
